@@ -13,6 +13,7 @@ import (
 	"os"
 	"os/exec"
 	"path/filepath"
+	"runtime/debug"
 	"sort"
 	"strconv"
 	"strings"
@@ -34,6 +35,9 @@ type Violation struct {
 	// Fatal: implementation and model have diverged in STATE (not merely in one
 	// observation); the search does not expand beyond such a node.
 	Fatal bool `json:"-"`
+	// Prune: not a violation at all; the search just does not expand beyond this
+	// node (the statement leaves the outcome unspecified).
+	Prune bool `json:"-"`
 }
 
 // Result is what a worker hands to the parent.
@@ -288,6 +292,8 @@ func newWorker(c *Check, tier string, seed int64, sh, n int) *Worker {
 }
 
 func runWorker(c *Check, tier string, seed int64, sh, n int) {
+	// runaway recursion must fail fast (default limit is 1 GB per goroutine)
+	debug.SetMaxStack(256 << 20)
 	w := newWorker(c, tier, seed, sh, n)
 	if j := os.Getenv("VERIF_JOURNAL"); j != "" {
 		f, err := os.OpenFile(j, os.O_CREATE|os.O_RDWR|os.O_TRUNC, 0o644)
